@@ -15,7 +15,7 @@ import ast
 from typing import Dict, List, Optional, Tuple
 
 from ..astutil import if_chain, txt
-from ..confinement import handler_functions, report_function, run_confinement
+from ..confinement import handler_functions, report_bypass, report_function, run_confinement
 from ..model import AnalysisError, FunctionInfo, walk_local
 from .c01 import BODY, FLAT, handler_bindings, handlers_of, point_fields
 from .c04 import _propositional
@@ -147,7 +147,34 @@ def r22(ctx, res):
             if not found:
                 res.violation("R2.2", fi, fi.node, "%s never adds %s.%s when it lies inside the polyhedron: a %s starting inside loses "
                               "its interior end" % (fi.short, X, f, tX), construct="%s: contained %s.%s" % (fi.short, X, f))
-    ctx.require(res, "R2.2", n, 14, "boundary-family obligations")
+    # every result return lies behind all candidate families
+    for h in (seg_h, hl_h, pg_h):
+        fams = [st for st in h.node.body if isinstance(st, ast.For)]
+        if fams:
+            n += report_bypass(ctx, res, h, "R2.2", fams, h.node.body, "boundary families of the helper")
+    for name in ("inter_segment_convexpolyhedron", "inter_convexpolyhedron_halfline", "inter_line_convexpolyhedron",
+                 "inter_plane_convexpolyhedron"):
+        fi = repo.fn(name, "calc.intersection")
+        fams = []
+        for st in fi.node.body:
+            if isinstance(st, ast.For):
+                fams.append(st)
+            elif isinstance(st, ast.Assign) and isinstance(st.value, ast.Call) and isinstance(st.value.func, ast.Name) \
+                    and st.value.func.id.endswith("_intersection_point_set"):
+                fams.append(st)
+            elif isinstance(st, ast.If) and any(isinstance(c, ast.Call) and isinstance(c.func, ast.Attribute) and c.func.attr == "add"
+                                                for c in ast.walk(st)):
+                fams.append(st)
+        if fams:
+            n += report_bypass(ctx, res, fi, "R2.2", fams, fi.node.body, "hit set, contained end points")
+    fi = repo.fn("inter_line_convexpolygon", "calc.intersection")
+    for st in walk_local(fi.node):
+        if isinstance(st, ast.If):
+            for body in (st.body, st.orelse):
+                fams = [x for x in body if isinstance(x, ast.For)]
+                if fams:
+                    n += report_bypass(ctx, res, fi, "R2.2", fams, body, "edges of the polygon in the in-plane case")
+    ctx.require(res, "R2.2", n, 22, "boundary-family obligations")
 
 
 def run(ctx, res):
